@@ -228,7 +228,8 @@ func runServe(fields []string) string {
 var serveMethods = []string{"GET", "GET", "POST", "PUT", "DELETE", "OPTIONS", "CONNECT", "PATCH", "HEAD"}
 
 // special segments exercising the Location escaping (decoded forms; the request is built with URL.Path)
-var oddSegs = []string{"https:evil.com", "a:b", "a b", "a%b", "a#b", "é", "a?b", "x;y", "a+b", "a&b=c", "{x}", "*z"}
+var oddSegs = []string{"https:evil.com", "a:b", "a b", "a%b", "a#b", "é", "a?b", "x;y", "a+b", "a&b=c", "{x}", "*z",
+	":id", "::", ":", "a:", "?q", "#f", "%41", "%", "%2F", "..a", "...", "a..", "~", "@", "=", "a@b:c", "//x"[1:], "javascript:alert(1)", " ", "\\x"}
 
 func genServe(r *Rng, tier string, n int, emit func(string)) {
 	for c := 0; c < n; c++ {
